@@ -464,7 +464,7 @@ impl Value {
                         }
                     } else if y.is_nan() {
                         Ordering::Greater
-                    } else if (*x - *y).abs() < f64::EPSILON {
+                    } else if *x == *y || (*x - *y).abs() < f64::EPSILON {
                         Ordering::Equal
                     } else if *x < *y {
                         Ordering::Less
@@ -480,7 +480,7 @@ impl Value {
                 _ => Ordering::Greater,
             },
             Value::Text(s) => match other {
-                Value::Record(_, _) => Ordering::Greater,
+                Value::Record(_, _) | Value::Data(_) => Ordering::Greater,
                 Value::Text(t) => s.cmp(t),
                 _ => Ordering::Less,
             },
@@ -496,6 +496,7 @@ impl Value {
                         .chain(items2.iter().map(Either::Right));
                     first.cmp(second)
                 }
+                Value::Data(_) => Ordering::Greater,
                 _ => Ordering::Less,
             },
             Value::BigInt(bi) => match other {
@@ -504,7 +505,7 @@ impl Value {
                 Value::Int64Value(m) => bi.cmp(&BigInt::from(*m)),
                 Value::UInt32Value(m) => bi.cmp(&BigInt::from(*m)),
                 Value::UInt64Value(m) => bi.cmp(&BigInt::from(*m)),
-                Value::Float64Value(y) => bi.cmp(&BigInt::from(*y as i64)),
+                Value::Float64Value(_) => other.compare(self).reverse(),
                 Value::BigInt(other_bi) => bi.cmp(other_bi),
                 Value::BigUint(other_bi) => match other_bi.to_bigint() {
                     Some(other_bi) => bi.cmp(&other_bi),
@@ -524,10 +525,7 @@ impl Value {
                 },
                 Value::UInt32Value(u) => bi.cmp(&BigUint::from(*u)),
                 Value::UInt64Value(u) => bi.cmp(&BigUint::from(*u)),
-                Value::Float64Value(m) => match u64::try_from(*m as i64) {
-                    Ok(m) => bi.cmp(&BigUint::from(m)),
-                    Err(_) => Ordering::Greater,
-                },
+                Value::Float64Value(_) => other.compare(self).reverse(),
                 Value::BigInt(other_bi) => match other_bi.to_biguint() {
                     Some(other_bi) => bi.cmp(&other_bi),
                     None => Ordering::Greater,
